@@ -4,11 +4,26 @@ import BedVerif.Lemmas.C20Checker
 namespace BV
 variable {α : Type}
 
-/-- C20 for every reachable state over non-empty intervals -/
-theorem C20_depth_spec (l : List (Iv α)) (ops : List (Op α)) (h : NonEmptyIvs l ops) :
+/-- all coordinates fit in u64 -/
+def FitsU64 (l : List (Iv α)) (ops : List (Op α)) : Prop := ∀ iv ∈ recordsOf l ops, iv.stop ≤ U64MAX
+
+/-- merges only take the maximum of stops: when the supplied intervals fit in u64, so do the stored ones -/
+theorem C20_stored_fits (l : List (Iv α)) (ops : List (Op α)) (h : NonEmptyIvs l ops) (hfit : FitsU64 l ops) :
+    ∀ iv ∈ (Lapper.run l ops).intervals.toList, iv.stop ≤ U64MAX := by
+  intro iv hiv
+  have hne := C18_stored_nonempty l ops h iv hiv
+  have hc : covered (Lapper.run l ops).intervals.toList (iv.stop - 1) :=
+    ⟨iv, hiv, (covers_iff iv _).mpr ⟨by omega, by omega⟩⟩
+  obtain ⟨r, hr, hrc⟩ := (C18_covered_supplied l ops h (iv.stop - 1)).mp hc
+  have := hfit r hr
+  rw [covers_iff] at hrc
+  omega
+
+/-- C20 for every reachable state over non-empty intervals anywhere in the u64 range (an interval may end at u64::MAX itself) -/
+theorem C20_depth_spec (l : List (Iv α)) (ops : List (Op α)) (h : NonEmptyIvs l ops) (hfit : FitsU64 l ops) :
     IsDepthRLE (Lapper.run l ops).intervals.toList (Lapper.run l ops).depth := by
   have hinv := (inv_run_weak l ops h.weak).1
-  exact depth_spec_of _ ⟨hinv.sortedStart, hinv.maxLen_ge⟩ (C18_stored_nonempty l ops h)
+  exact depth_spec_of _ ⟨hinv.sortedStart, hinv.maxLen_ge, C20_stored_fits l ops h hfit⟩ (C18_stored_nonempty l ops h)
 
 /-- an empty set yields no runs -/
 theorem C20_depth_empty : (Lapper.new ([] : List (Iv α))).depth = [] := by rfl
@@ -43,5 +58,9 @@ theorem C20_isDepthRLEB_sound (l : List (Iv α)) (runs : List (Iv Nat)) (h : isD
 /-- witness (fixture `test_depth_harder` of the crate) -/
 example : (Lapper.new [(⟨1, 10, ()⟩ : Iv Unit), ⟨2, 5, ()⟩, ⟨3, 8, ()⟩, ⟨3, 8, ()⟩, ⟨3, 8, ()⟩, ⟨5, 8, ()⟩, ⟨9, 11, ()⟩, ⟨15, 20, ()⟩]).depth
     = [⟨1, 2, 1⟩, ⟨2, 3, 2⟩, ⟨3, 8, 5⟩, ⟨8, 9, 1⟩, ⟨9, 10, 2⟩, ⟨10, 11, 1⟩, ⟨15, 20, 1⟩] := by decide +kernel
+
+/-- witness: two intervals ending at u64::MAX itself (the last probe of the block is at `u64::MAX`) -/
+example : (Lapper.new [(⟨18446744073709551612, 18446744073709551615, ()⟩ : Iv Unit), ⟨18446744073709551613, 18446744073709551615, ()⟩]).depth
+    = [⟨18446744073709551612, 18446744073709551613, 1⟩, ⟨18446744073709551613, 18446744073709551615, 2⟩] := by decide +kernel
 
 end BV
